@@ -104,6 +104,97 @@ def timing_ok(out, tier):
                 return
 
 
+def generated_regexes():
+    """the regex sources that the Lean side holds: `tokenRules`, `instrRegexes`, `symRegexes` of Generated.lean"""
+    import os
+    text = open(os.path.join(common.LEAN, "MammothModel", "Generated.lean"), encoding="utf-8").read()
+
+    def unlean(lit):
+        return re.sub(r'\\(x[0-9a-fA-F]{2}|.)', lambda m: {"n": "\n", "r": "\r", "t": "\t"}.get(m.group(1), chr(int(m.group(1)[1:], 16)) if len(m.group(1)) == 3 else m.group(1)), lit)
+    out = []
+    for table in ("tokenRules", "instrRegexes", "symRegexes"):
+        m = re.search(r"^def %s : [^\n]*:= \[(.*?)\]$" % table, text, re.M | re.S)
+        lits = [unlean(x) for x in re.findall(r'S!"((?:[^"\\]|\\.)*)"', m.group(1))] if m else []
+        if table == "tokenRules":
+            out += [("token rule " + lits[i], lits[i + 1]) for i in range(0, len(lits) - 1, 2)]
+        else:
+            out += [(table, x) for x in lits]
+    return out
+
+
+def regex_tie(out, seed, model_ok):
+    """the backtracking matcher of the Lean cost model (driver op `rxmatch`: parse the SOURCE of the regex, run it)
+    against CPython's `re` on the regexes the theorems are about: same match or no match, same `match.end()`"""
+    if not model_ok:
+        return
+    import warnings
+    rng = random.Random(seed * 104729 + 11)
+    named = generated_regexes()
+    # the compiled objects the running tokeniser really uses (flags included) must be these sources
+    _strings, live = pumped_strings(1)
+    gen_rules = [p for n, p in named if n.startswith("token rule ")]
+    if live and live != gen_rules:
+        out.correspondence_breaks.append("the regexes of the running tokeniser %r are not the ones in Generated.lean %r" % (live, gen_rules))
+    cases = []
+    seeds = ["", "'", "\\", "\\\\", "a", "'a", "\\'", "x\\", "-", "_", "0", "9", " ", "\n", "\t", "\x1c", "\x85", "\xa0", "\u2003", "\u3000", "\u0663", "=>", "^=", "=", "^", ":", ">", "(", ")", "[", "]", "|", "!",
+             ".", "é", "Z", "{", "HYPERLINK", "HYPERLINK \"", "\"", "\\l", " FORMCHECKBOX ", "F0", "\U0001d7ce"]
+    for name, p in named:
+        alphabet = sorted(set(p) | set("'\\a9 \n\"-.=>^x\xa0\u0663")) 
+        strs = []
+        for pre in ["", "'", "'a\\", " \t", "HYPERLINK \"x", "  HYPERLINK  \\l \"b"]:
+            for sd in seeds:
+                for n in (1, 2, 7):
+                    strs.append(pre + sd * n)
+        for _ in range(120):
+            strs.append("".join(rng.choice(alphabet) for _ in range(rng.randint(0, 24))))
+        for _ in range(60):
+            strs.append("".join(rng.choice(seeds) for _ in range(rng.randint(1, 8))))
+        strs.append("'" + "\\" * 22)
+        strs.append("'" + "a\\'" * 300)
+        strs.append(" " * 500 + "x")
+        for st in dict.fromkeys(strs):
+            cases.append((name, p, st))
+    # the tables behind \s and \d, at every boundary of CPython's own classification
+    for pat, pred in (("\\s", str.isspace), ("\\d", str.isdecimal)):
+        member = [c for c in range(0x110000) if not 0xD800 <= c <= 0xDFFF and pred(chr(c))]
+        edge = sorted(set(d for c in member for d in (c - 1, c, c + 1) if 0 <= d < 0x110000 and not 0xD800 <= d <= 0xDFFF))
+        for c in edge:
+            cases.append(("table " + pat, pat, chr(c)))
+        for i in range(0, len(member), 200):
+            cases.append(("table " + pat, "[" + pat + "]+", "".join(chr(c) for c in member[i:i + 200]) + "x"))
+            cases.append(("table " + pat, "[^" + pat + "]*", "xyz" + "".join(chr(c) for c in member[i:i + 200])))
+    res = run_driver([{"op": "rxmatch", "pattern": p, "s": st} for _n, p, st in cases], tag="rx")
+    compiled = {}
+    unparsed = set()
+    bad = 0
+    for (name, p, st), m in zip(cases, res):
+        if "error" in m:
+            out.correspondence_breaks.append("driver error on rxmatch: %s" % m["error"])
+            return
+        if p not in compiled:
+            with warnings.catch_warnings():
+                warnings.simplefilter("ignore")
+                try:
+                    compiled[p] = re.compile(p)
+                except re.error:
+                    compiled[p] = None
+        rx = compiled[p]
+        if not m["parsed"]:
+            if name.startswith("token rule") and p not in unparsed:
+                out.correspondence_breaks.append("%s %r is outside the regex fragment of the Lean cost model" % (name, p))
+            unparsed.add(p)
+            continue
+        out.count(key="rx" + p + st[:60], nontrivial=m["len"] is not None)
+        if rx is None:
+            real = "re.error"
+        else:
+            mm = rx.match(st)
+            real = mm.end() if mm else None
+        if real != m["len"] and bad < 3:
+            bad += 1
+            out.correspondence_breaks.append("regex semantics: %s %r on %r: CPython's re gives match end %r, the Lean matcher %r" % (name, p, st[:80], real, m["len"]))
+
+
 def run(out, tier, seed, model_ok):
     rng = random.Random(seed * 7919 + 7)
     n = common.deepen(3000 if tier == "quick" else 40000)
@@ -179,10 +270,12 @@ def run(out, tier, seed, model_ok):
     if not hangs:
         timing_ok(out, tier)
     WORKER.close()
+    regex_tie(out, seed, model_ok)
     out.rule = ("Unicode strings (random code points, token soups built from the notation's symbols, mutated valid mappings, strings pumped from the loops of the tokeniser's "
                 "own regular expressions, lengths up to %s) read by the real _read_style_map, explicitly and as the embedded part: no exception, warnings quote their line "
                 "and are unique, every non-blank non-# line is applied or reported, result equals the Lean readStyleMap (specified in Properties/C07), and pumped inputs "
-                "of size n, 2n, 4n are read in bounded time; non-trivial = both a mapping and a warning present" % ("10^4" if tier == "quick" else "10^5"))
+                "of size n, 2n, 4n are read in bounded time; the regexes of Generated.lean (token rules, instruction-text regexes) run by the Lean backtracking matcher give the "
+                "same match end as CPython's re on pumped and random strings, and its \\s / \\d tables are CPython's at every boundary; non-trivial = both a mapping and a warning present" % ("10^4" if tier == "quick" else "10^5"))
     out.sample(texts[0][:300])
     out.sample(texts[1][:300])
 
